@@ -278,6 +278,21 @@ class FakeSock:
         self.sent.append(bytes(data))
         _ev(self.S, 'send', bytes(data))
 
+    def send(self, data):
+        """socket.send may accept only part of the data (here: at most 64 KiB) and returns the count"""
+        self.S.yield_('send', bytes(data))
+        self.sends += 1
+        if self.closed:
+            _ev(self.S, 'send-closed', bytes(data))
+            raise OSError(9, 'Bad file descriptor')
+        if self.fail_send is not None and self.sends >= self.fail_send:
+            _ev(self.S, 'send-error', bytes(data))
+            raise BrokenPipeError(32, 'Broken pipe')
+        part = bytes(data)[:65536]
+        self.sent.append(part)
+        _ev(self.S, 'send', part)
+        return len(part)
+
     def close(self):
         self.S.yield_('sock-close', None)
         self.closed += 1
